@@ -141,14 +141,19 @@ class SimPipe:
                 rest = rest[k:]
             os.lseek(fd, 0, os.SEEK_SET)
             self._fd, self._fd_base = fd, self._pos
+            # a private duplicate (same open file description, same offset):
+            # the program may close the descriptor it was given
+            self._fd_priv = os.dup(fd)
             FD_PIPES[fd] = self
         return self._fd
 
+    _fd_priv = None
+
     def _fd_pos(self):
-        if self._fd is None:
+        if self._fd_priv is None:
             return 0
         try:
-            return self._fd_base + os.lseek(self._fd, 0, os.SEEK_CUR)
+            return self._fd_base + os.lseek(self._fd_priv, 0, os.SEEK_CUR)
         except OSError:
             return 0
 
@@ -243,10 +248,22 @@ FD_PIPES = {}
 def release_fds():
     for fd, p in list(FD_PIPES.items()):
         try:
-            os.close(fd)
+            # the public number only if it still is OUR file (the program
+            # may have closed it and the number may have been reused)
+            st = os.fstat(fd)
+            if p._fd_priv is not None and st.st_ino == os.fstat(
+                    p._fd_priv).st_ino and st.st_dev == os.fstat(
+                        p._fd_priv).st_dev:
+                os.close(fd)
+        except OSError:
+            pass
+        try:
+            if p._fd_priv is not None:
+                os.close(p._fd_priv)
         except OSError:
             pass
         p._fd = None
+        p._fd_priv = None
     FD_PIPES.clear()
 
 
@@ -255,8 +272,13 @@ class RawPipeView:
     returns: a FileIO-like object whose read() is ONE raw read - on a pipe
     whatever fragment is available (fault kind `short_read`)."""
 
-    def __init__(self, pipe, closefd=True):
+    def __init__(self, pipe, closefd=True, raw=True):
+        # raw=False: a buffered re-open (a BufferedReader of its own over
+        # the descriptor): read(n) returns exactly n bytes unless the stream
+        # ends, like sys.stdin.buffer; closing it closes the descriptor only
+        # if closefd
         self._pipe, self._closefd, self.closed = pipe, closefd, False
+        self._raw = raw
         self.name = pipe._fd
         self.mode = "rb"
 
@@ -265,7 +287,17 @@ class RawPipeView:
             raise ValueError("I/O operation on closed file")
         if n is None or n < 0:
             return self.readall()
+        if not self._raw:
+            return self._pipe.read(n)
         return self._pipe.read1(n)
+
+    def read1(self, n=-1):
+        if self.closed:
+            raise ValueError("I/O operation on closed file")
+        return self._pipe.read1(n)
+
+    def peek(self, n=0):
+        return self._pipe.peek(n)
 
     def readall(self):
         return self._pipe.read(-1)
